@@ -190,3 +190,15 @@ class process_mode:
 
         torch.use_deterministic_algorithms(self.was)
         return False
+
+
+def build_module(cls, kw, case):
+    """The module as a user may have configured it: for one module case in five it is built with the default costs and
+    its cost attributes are assigned afterwards (they are plain attributes the forward pass reads)."""
+    if (case.get("R", 0) + 3 * case.get("H", 0) + len(case.get("ref", ()))) % 5 == 2 and "ins_cost" in kw:
+        late = {k: kw[k] for k in ("ins_cost", "del_cost", "sub_cost")}
+        m = cls(**{k: v for k, v in kw.items() if k not in late})
+        for k, v in late.items():
+            setattr(m, k, float(v))
+        return m
+    return cls(**kw)
